@@ -283,7 +283,7 @@ class EnvModels(c20.RunModels):
 
 
 def mk_setup(keep, user_dir, docs, same_names):
-    base = c20.mk_setup(0, 0, docs)
+    base = c20.mk_setup(1, 1, docs) if same_names == "lookups" else c20.mk_setup(0, 0, docs)
 
     def setup(ctx):
         args = base(ctx)
@@ -297,6 +297,8 @@ def mk_setup(keep, user_dir, docs, same_names):
         # real paths for the documents (identical file names in different directories when asked for)
         for d, doc in enumerate(ctx.notes["documents"]):
             path = ("/docs/d%d/test.md" % d) if same_names is True else ("/docs/doc%d.md" % d)
+            if same_names == "cram":
+                ctx.notes["cram"] = True
             if same_names == "symlink":
                 # the document is given by a symbolic link to a file of another name in another directory
                 path = "/docs/link%d.md" % d
@@ -306,6 +308,12 @@ def mk_setup(keep, user_dir, docs, same_names):
             dcfg = field_of(doc, "config")
             pre = dcfg.fields[STRUCTS["DocumentConfig"].index("prepend")]
             pre.items[:] = [mk_pathbuf("bad.md") if isinstance(x, Opaque) and x.what == "path:bad" else x for x in pre.items]
+            if same_names == "lookups":
+                # front-matter paths are relative to the document, command-line paths to the current directory
+                app = dcfg.fields[STRUCTS["DocumentConfig"].index("append")]
+                pre.items[:] = [mk_pathbuf("pre.md") if isinstance(x, Opaque) and x.what == "path:p" else x for x in pre.items]
+                app.items[:] = [mk_pathbuf("app.md") if isinstance(x, Opaque) and x.what == "path:q" else x for x in app.items]
+                ctx.notes["want_lookups"] = sorted(["/docs/pre.md", "/docs/app.md", "clipre.md", "cliapp.md"])
         ctx.notes["doc_paths"] = [pstr(field_of(doc, "path")) for doc in ctx.notes["documents"]]
         # every test case brings its own variables, among them names scrut documents as set by itself ("set afresh for every test case")
         for doc in ctx.notes["documents"]:
@@ -315,8 +323,13 @@ def mk_setup(keep, user_dir, docs, same_names):
                                                                                      [mk_pathbuf("TMPDIR"), mk_pathbuf("/elsewhere")]])
         a = deref(args[0])
         order = c20.struct_order(e2.REPO + "/src/bin/commands/test.rs", "Args")
+        if same_names == "lookups":
+            a.fields[order.index("prepend_test_file_paths")] = VecBuf([mk_pathbuf("clipre.md")])
+            a.fields[order.index("append_test_file_paths")] = VecBuf([mk_pathbuf("cliapp.md")])
         g = a.fields[order.index("global")]
         gorder = [n for n, _t in c20.struct_order(e2.REPO + "/src/bin/commands/root.rs", "GlobalSharedParameters", typed=True)]
+        if same_names == "cram":
+            g.fields[gorder.index("cram_compat")] = SBool(True)       # --cram-compat: the Cram variables are set as well
         g.fields[gorder.index("keep_temporary_directories")] = SBool(keep)
         g.fields[gorder.index("work_directory")] = some(mk_pathbuf("/user/work")) if user_dir else none()
         return args
@@ -366,6 +379,13 @@ def post(ctx, args, kind, value):
                 return False
             if env.get("FOO") != "bar":
                 return False          # the test case's own (undocumented) variable is lost
+            if ctx.notes.get("cram"):
+                # Cram compatibility: CRAMTMP is the (given or created) base work directory, TMP and TEMP are the temporary directory
+                base = "/user/work" if user_dir else call["work"].rsplit("/", 1)[0]
+                if env.get("CRAMTMP") != base or env.get("TMP") != call["tmp"] or env.get("TEMP") != call["tmp"]:
+                    return False
+    if ctx.notes.get("want_lookups") is not None and sorted(ctx.notes.get("lookups", [])) != ctx.notes["want_lookups"]:
+        return False                  # a prepend / append document was looked for in the wrong place
     left = sorted(p for p, e in L.dirs.items() if e["by"] == "scrut")
     if keep:
         pass                          # directories may stay
@@ -390,6 +410,9 @@ def configs(max_total, two_docs):
         if two_docs:
             for k1, d1 in c20.REPRESENTATIVE(1):
                 out.append((keep, user_dir, [Doc(0, 1, 0, 0, k1, d1)], "symlink"))
+            out.append((keep, user_dir, [Doc(0, 1, 1, 1, "ok", "CCCCC")], "lookups"))
+            out.append((keep, user_dir, [Doc(0, 1, 0, 0, "ok", "C")], "cram"))
+            out.append((keep, user_dir, [Doc(0, 1, 0, 0, "ok", "C"), Doc(1, 1, 0, 0, "ok", "C")], "cram"))
             for same in (False, True):
                 for (k1, d1), (k2, d2) in itertools.product(c20.REPRESENTATIVE(1), repeat=2):
                     out.append((keep, user_dir, [Doc(0, 1, 0, 0, k1, d1), Doc(1, 1, 0, 0, k2, d2)], same))
@@ -406,8 +429,19 @@ def h_env(max_total):
                                "documented variables set with TMPDIR/TESTFILE/TESTDIR/TESTSHELL right; at return nothing scrut created is left unless "
                                "--keep-temporary-directories, a given --work-directory stays",
                       bound="1 document with 1..%d test cases (every executor result shape over exit code / detached), 2 and 3 documents with one test "
-                            "case (representative results, also identical file names in different directories, a document given by a symbolic link); plain / --work-directory / "
+                            "case (representative results, also identical file names in different directories, a document given by a symbolic link, --cram-compat with its CRAMTMP / TMP / TEMP, where prepend / append documents of the front-matter and of the command line are looked for); plain / --work-directory / "
                             "--keep-temporary-directories; validation verdicts free" % max_total)
+
+
+def h_lookups():
+    """C20: where the prepend / append documents of the front-matter and of the command line are looked for (the same run, real paths)"""
+    cfgs = [c for c in configs(1, True) if c[3] == "lookups"]
+    inputs = [("keep=%s work-directory=%s documents=%s" % (k, u, dl), mk_setup(k, u, dl, s)) for k, u, dl, s in cfgs]
+    return e2.Harness("prepend_append_documents_are_looked_up_where_named", c20.drive, inputs, post, native=None, judge=None,
+                      describe="front-matter prepend / append paths are resolved against the document's directory, --prepend / --append-test-file-paths are "
+                               "taken as given (relative to the current directory); each named document is looked up exactly once",
+                      bound="1 document in /docs with a front-matter prepend and append document, --prepend-test-file-paths and --append-test-file-paths; "
+                            "3 flag combinations")
 
 
 def native_run(keep, user_dir, n_docs, same_names, fail_last):
